@@ -93,6 +93,29 @@ static bool decode_prefix_equals(const std::vector<uint8_t> &comp, const uint8_t
 	return got == n && (n == 0 || memcmp(o.data(), plain, n) == 0);
 }
 
+
+// The same op sequence through a fresh threaded encoder with ONE worker thread, native threads (the scheduler is inactive),
+// big output windows: the reference for "identical bytes whatever the thread count, timeout, slicing and schedule" (C06/C08).
+static bool reference_bytes(const lzma_mt &mt0, bool use_preset, Chain &ch0, Chain &ch1, const std::vector<Op> &ops, const std::vector<uint8_t> &in, std::vector<uint8_t> &out) {
+	lzma_mt mt = mt0; mt.threads = 1; mt.timeout = 0; relink(ch0); relink(ch1); if (!use_preset) mt.filters = ch0.f;
+	lzma_stream s = LZMA_STREAM_INIT; s.allocator = AL();
+	if (lzma_stream_encoder_mt(&s, &mt) != LZMA_OK) { lzma_end(&s); return false; }
+	out.assign(lzma_stream_buffer_bound(in.size()) + 4096 + 128 * (in.size() / (size_t)mt.block_size + ops.size() + 2), 0);
+	s.next_out = out.data(); s.avail_out = out.size(); static uint8_t z[1]; size_t fed = 0; size_t pending = 0; int cur = 0; bool ok = true;
+	for (size_t oi = 0; oi <= ops.size() && ok; ++oi) {
+		Op o = oi < ops.size() ? ops[oi] : Op{-1, 0}; lzma_action act = LZMA_RUN; size_t n = 0;
+		if (o.kind == OP_FEED) n = std::min<size_t>(o.n, in.size() - fed); else if (o.kind == OP_FLUSH) act = LZMA_FULL_FLUSH; else if (o.kind == OP_BARRIER) act = LZMA_FULL_BARRIER;
+		else if (o.kind == -1) { n = in.size() - fed; act = LZMA_FINISH; }
+		else if (o.kind == OP_UPDATE) { if (use_preset) continue; Chain &nc = cur == 0 ? ch1 : ch0; relink(nc); if (pending == 0 && lzma_filters_update(&s, nc.f) == LZMA_OK) cur ^= 1; continue; }
+		else continue;
+		s.next_in = in.empty() ? z : in.data() + fed; s.avail_in = n;
+		pending = (pending + n) % (size_t)mt.block_size; if (act != LZMA_RUN) pending = 0;
+		for (int guard = 0; guard < 100000; ++guard) { lzma_ret r = lzma_code(&s, act); if (r == LZMA_STREAM_END) break; if (r == LZMA_OK) { if (act == LZMA_RUN && s.avail_in == 0) break; continue; } if (r == LZMA_BUF_ERROR && act == LZMA_RUN && s.avail_in == 0) break; ok = false; break; }
+		fed += n;
+	}
+	out.resize(out.size() - s.avail_out); lzma_end(&s); return ok;
+}
+
 extern "C" int LLVMFuzzerTestOneInput(const uint8_t *data, size_t size) {
 	begin_case("C08");
 	Case c(data, size);
@@ -225,6 +248,10 @@ extern "C" int LLVMFuzzerTestOneInput(const uint8_t *data, size_t size) {
 			if (S.blocks[i].lz.lzma_chunks && S.blocks[i].lz.last_props != ec_.props()) violation("C08:update-not-effective", "Block %zu uses lc/lp/pb byte %u, chain in effect has %u", i, S.blocks[i].lz.last_props, ec_.props()); }
 		if (pin != tin || pout != tout || tin != in.size() || tout != R.out.size()) violation("C08:progress-final", "final progress %llu/%llu, totals %llu/%llu, input %zu output %zu", (unsigned long long)pin, (unsigned long long)pout, (unsigned long long)tin, (unsigned long long)tout, in.size(), R.out.size());
 		if (R.max_pout > tout) violation("C08:progress-exceeds-total", "progress_out reached %llu but only %llu bytes were ever produced", (unsigned long long)R.max_pout, (unsigned long long)tout);
+		// determinism: the bytes do not depend on thread count, timeout, output slicing or schedule
+		std::vector<uint8_t> refb;
+		if (reference_bytes(mt, use_preset, ch0, ch1, ops, in, refb)) { count("determinism_pairs");
+			if (refb != R.out) { size_t d = 0; while (d < refb.size() && d < R.out.size() && refb[d] == R.out[d]) ++d; violation("C06:mt-determinism", "output differs from a 1-thread / timeout 0 / unsliced run of the same actions at byte %zu (%zu vs %zu bytes)", d, R.out.size(), refb.size()); } }
 	} else count("early_end");
 	if (did_reinit) {
 		count("reinit");
